@@ -1,4 +1,5 @@
 import Proofs.EcdsaModel
+import Proofs.EcdsaExact
 
 /-! # C11 (executable model) — every signature the model's signing function returns is accepted by the model's
 verification, for both curves, every private key, nonce, and hash: by the group law of the curve (Mathlib), not by
@@ -34,6 +35,21 @@ theorem k256_sign_verify (d k : ℕ) (hd : d < Ecdsa.k256.n) (hk : k < Ecdsa.k25
     (hQ : Ecdsa.publicKeyOf Ecdsa.k256 d = some Q) (hs : Ecdsa.signWith Ecdsa.k256 d k h = some sig) :
     Ecdsa.verifyHash Ecdsa.k256 Q h sig = true := sign_verify good_k256 d k hd hk h sig Q hQ hs
 
+/-- **P-256: verification is exact** - under the public key of `d`, the model accepts exactly the outputs of the
+    signing function over all nonces `0 < k < n` (so every accepted `(r, s)` is a genuine signature of the key holder) -/
+theorem p256_verify_iff_signed (d : ℕ) (hd : d < Ecdsa.p256.n) (h sig : Bytes) (Q : ℕ × ℕ)
+    (hQ : Ecdsa.publicKeyOf Ecdsa.p256 d = some Q) :
+    Ecdsa.verifyHash Ecdsa.p256 Q h sig = true ↔
+      ∃ k, 0 < k ∧ k < Ecdsa.p256.n ∧ Ecdsa.signWith Ecdsa.p256 d k h = some sig :=
+  Proofs.EcdsaExact.verify_iff_signed good_p256 d hd h sig Q hQ
+
+/-- **secp256k1: verification is exact** -/
+theorem k256_verify_iff_signed (d : ℕ) (hd : d < Ecdsa.k256.n) (h sig : Bytes) (Q : ℕ × ℕ)
+    (hQ : Ecdsa.publicKeyOf Ecdsa.k256 d = some Q) :
+    Ecdsa.verifyHash Ecdsa.k256 Q h sig = true ↔
+      ∃ k, 0 < k ∧ k < Ecdsa.k256.n ∧ Ecdsa.signWith Ecdsa.k256 d k h = some sig :=
+  Proofs.EcdsaExact.verify_iff_signed good_k256 d hd h sig Q hQ
+
 /-- non-vacuity: a signature of the model under private key 5 with nonce 7 on secp256k1 exists and is accepted -/
 example : ∃ sig Q, Ecdsa.publicKeyOf Ecdsa.k256 5 = some Q ∧ Ecdsa.signWith Ecdsa.k256 5 7 (List.replicate 32 9) = some sig ∧
     Ecdsa.verifyHash Ecdsa.k256 Q (List.replicate 32 9) sig = true := by
@@ -48,3 +64,5 @@ end Props.C11Model
 
 #print axioms Props.C11Model.p256_sign_verify
 #print axioms Props.C11Model.k256_sign_verify
+#print axioms Props.C11Model.p256_verify_iff_signed
+#print axioms Props.C11Model.k256_verify_iff_signed
